@@ -83,7 +83,16 @@ def split_chunks(rng, n, max_chunks=8):
 def gen_c06(rng, tier):
     """one training history, as a single fit and as fit + partial_fit chunks"""
     ctx = rng.random() < 0.6
-    if ctx:
+    if rng.random() < 0.1:
+        # Thompson Sampling with a binarizer that is NOT the identity on {0, 1} (flip, or a threshold above 1) under a policy that stores
+        # the history: rewards converted when they were first observed must not pass through the binarizer again with a later chunk
+        ctx = True
+        base = gen.gen_ctx_case(rng, nps=[rng.choice(["radius", "knearest", "lsh", "clusters"])], lps=["thompson"], max_ops=0, arm_changes=False,
+                                reward_styles=["smallint"], max_rows=40)
+        base["lp"] = ("thompson", rng.choice([("flip",), ("gt", 1.5), ("thr", [(a, 2.0) for a in base["arms"]], 2.0)]))
+        fit0 = base["ops"][0]
+        base["ops"] = [("fit", fit0[1], [float(rng.randint(0, 4)) for _ in fit0[2]], fit0[3])] + list(base["ops"][1:])
+    elif ctx:
         base = gen.gen_ctx_case(rng, nps=["none", "radius", "knearest", "lsh", "clusters"], max_ops=0, arm_changes=False,
                                 reward_styles=["dyadic", "smallint", "binary"], max_rows=40 if tier == "quick" else 120)
         if is_lin(base) and base["lp"][3]:
